@@ -66,13 +66,13 @@ theorem chkS_of_check (P : Params) (hfee : 0 ≤ P.retvFee) (h : Nat) (s : State
   | vote k' lock vs bad =>
     intro hk; subst hk
     simp only [check] at hc
-    cases hg : get k' s.stakes with
-    | none => simp [hg] at hc
-    | some t =>
-      simp only [hg] at hc
-      split at hc
-      · cases hc
-      · rename_i hany
+    split at hc
+    · cases hc
+    · rename_i hany
+      cases hg : get k' s.stakes with
+      | none => simp [hg] at hc
+      | some t =>
+        simp only [hg] at hc
         split at hc
         · cases hc
         · split at hc
